@@ -331,6 +331,11 @@ func (p *Point) UnmarshalBSON(data []byte) error {
 		return err
 	}
 
+	if g == nil {
+		// a document whose length field is zero: bson.Unmarshal sets the pointer to nil
+		return ErrInvalidGeometry
+	}
+
 	point, ok := g.Coordinates.(orb.Point)
 	if !ok {
 		return errors.New("geojson: not a Point type")
@@ -386,6 +391,11 @@ func (mp *MultiPoint) UnmarshalBSON(data []byte) error {
 	err := bson.Unmarshal(data, &g)
 	if err != nil {
 		return err
+	}
+
+	if g == nil {
+		// a document whose length field is zero: bson.Unmarshal sets the pointer to nil
+		return ErrInvalidGeometry
 	}
 
 	multiPoint, ok := g.Coordinates.(orb.MultiPoint)
@@ -445,6 +455,11 @@ func (ls *LineString) UnmarshalBSON(data []byte) error {
 		return err
 	}
 
+	if g == nil {
+		// a document whose length field is zero: bson.Unmarshal sets the pointer to nil
+		return ErrInvalidGeometry
+	}
+
 	lineString, ok := g.Coordinates.(orb.LineString)
 	if !ok {
 		return errors.New("geojson: not a LineString type")
@@ -500,6 +515,11 @@ func (mls *MultiLineString) UnmarshalBSON(data []byte) error {
 	err := bson.Unmarshal(data, &g)
 	if err != nil {
 		return err
+	}
+
+	if g == nil {
+		// a document whose length field is zero: bson.Unmarshal sets the pointer to nil
+		return ErrInvalidGeometry
 	}
 
 	multilineString, ok := g.Coordinates.(orb.MultiLineString)
@@ -559,6 +579,11 @@ func (p *Polygon) UnmarshalBSON(data []byte) error {
 		return err
 	}
 
+	if g == nil {
+		// a document whose length field is zero: bson.Unmarshal sets the pointer to nil
+		return ErrInvalidGeometry
+	}
+
 	polygon, ok := g.Coordinates.(orb.Polygon)
 	if !ok {
 		return errors.New("geojson: not a Polygon type")
@@ -614,6 +639,11 @@ func (mp *MultiPolygon) UnmarshalBSON(data []byte) error {
 	err := bson.Unmarshal(data, &g)
 	if err != nil {
 		return err
+	}
+
+	if g == nil {
+		// a document whose length field is zero: bson.Unmarshal sets the pointer to nil
+		return ErrInvalidGeometry
 	}
 
 	multiPolygon, ok := g.Coordinates.(orb.MultiPolygon)
